@@ -8,13 +8,38 @@ import layer_m
 from layer_s import template_scheduler
 
 
-def canonical(params, algo, warmup=0):
+def fixed_workload(spec):
+    """a workload that delivers hand-built DAG pipelines at given ticks: {"pipes": [{"prio": p, "ops": [{"parents": [...], "ticks": k, "mem": gb}]}], "arrivals": [[...]], "tps": n}"""
+    from eudoxia.workload import Workload
+    from eudoxia.workload.pipeline import Pipeline, Segment
+    from eudoxia.utils import Priority
+    pls = []
+    for k, p in enumerate(spec["pipes"]):
+        pl = Pipeline(f"d{k}", Priority(p["prio"]))
+        ops = []
+        for o in p["ops"]:
+            op = pl.new_operator([ops[i] for i in o["parents"]] if o["parents"] else None)
+            op.add_segment(Segment(baseline_cpu_seconds=o["ticks"] / spec["tps"], cpu_scaling="const", memory_gb=o["mem"], storage_read_gb=0))
+            ops.append(op)
+        pls.append(pl)
+
+    class W(Workload):
+        def __init__(self):
+            self.t = 0
+        def run_one_tick(self):
+            out = [pls[i] for i in spec["arrivals"][self.t]] if self.t < len(spec["arrivals"]) else []
+            self.t += 1
+            return out
+    return W()
+
+
+def canonical(params, algo, warmup=0, workload=None):
     from eudoxia.simulator import run_simulator
     for i in range(warmup):      # advance process-global counters and registries first
         run_simulator({"duration": 5, "ticks_per_second": 10, "scheduler_algo": ["naive", "priority"][i % 2], "random_seed": 1000 + i,
                        "waiting_seconds_mean": 0.5, "num_pools": 2})
     real = template_scheduler() if algo == "template" else algo
-    stats, rec = layer_m.run_recorded(params, real)
+    stats, rec = layer_m.run_recorded(params, real, fixed_workload(workload) if workload else None)
     pipe_no, op_no, ctr_no = {}, {}, {}
 
     def pno(p):
@@ -51,4 +76,4 @@ def canonical(params, algo, warmup=0):
 
 if __name__ == "__main__":
     spec = json.loads(sys.argv[1])
-    print(json.dumps(canonical(spec["params"], spec["algo"], spec.get("warmup", 0)), sort_keys=True))
+    print(json.dumps(canonical(spec["params"], spec["algo"], spec.get("warmup", 0), spec.get("workload")), sort_keys=True))
